@@ -117,9 +117,24 @@ func (s *Session) reset() {
 	s.Features = s.extractStreamFeatures()
 }
 
+// decodeNext decodes the next element of the stream into v. A closing tag of the stream instead of
+// an element is an error: the server has ended the stream, and waiting for more would wait for ever
+// when it leaves the connection open.
+func (s *Session) decodeNext(v interface{}) error {
+	t, err := stanza.NextXmppToken(s.transport.GetDecoder())
+	if err != nil {
+		return err
+	}
+	se, ok := t.(xml.StartElement)
+	if !ok {
+		return errors.New("the server closed the stream")
+	}
+	return s.transport.GetDecoder().DecodeElement(v, &se)
+}
+
 func (s *Session) extractStreamFeatures() (f stanza.StreamFeatures) {
 	// extract stream features
-	if s.err = s.transport.GetDecoder().Decode(&f); s.err != nil {
+	if s.err = s.decodeNext(&f); s.err != nil {
 		s.err = errors.New("stream open decode features: " + s.err.Error())
 	}
 	return
@@ -141,7 +156,7 @@ func (s *Session) startTlsIfSupported(o *Config) {
 		fmt.Fprintf(s.transport, "<starttls xmlns='urn:ietf:params:xml:ns:xmpp-tls'/>")
 
 		var k stanza.TLSProceed
-		if s.err = s.transport.GetDecoder().DecodeElement(&k, nil); s.err != nil {
+		if s.err = s.decodeNext(&k); s.err != nil {
 			s.err = errors.New("expecting starttls proceed: " + s.err.Error())
 			return
 		}
@@ -251,7 +266,7 @@ func (s *Session) bind(o *Config) {
 
 	// Check the server response
 	var iq stanza.IQ
-	if s.err = s.transport.GetDecoder().Decode(&iq); s.err != nil {
+	if s.err = s.decodeNext(&iq); s.err != nil {
 		s.err = errors.New("error decoding iq bind result: " + s.err.Error())
 		return
 	}
@@ -311,7 +326,7 @@ func (s *Session) rfc3921Session() {
 			return
 		}
 
-		if s.err = s.transport.GetDecoder().Decode(&iq); s.err != nil {
+		if s.err = s.decodeNext(&iq); s.err != nil {
 			s.err = errors.New("expecting iq result after session open: " + s.err.Error())
 			return
 		}
